@@ -18,6 +18,11 @@ import (
 type DNSZone struct {
 	AD       bool
 	ServFail bool
+	// CNAME makes the name an alias: an A query is answered with the CNAME record
+	// followed by the address records of the target (AD as above: "the whole chain
+	// is authenticated"), a CNAME query with the record alone and AD = ADCNAME.
+	CNAME   string
+	ADCNAME bool
 	A        []string
 	MX       []net.MX
 	TLSA     []dns.TLSA // Hdr is filled in by the server
@@ -103,8 +108,23 @@ func (s *DNSServer) ServeDNS(w dns.ResponseWriter, m *dns.Msg) {
 		}
 		switch q.Qtype {
 		case dns.TypeA:
+			if z.CNAME != "" {
+				target := strings.ToLower(dns.Fqdn(z.CNAME))
+				reply.Answer = append(reply.Answer, &dns.CNAME{Hdr: hdr(dns.TypeCNAME), Target: target})
+				for _, a := range s.Zones[target].A {
+					reply.Answer = append(reply.Answer, &dns.A{
+						Hdr: dns.RR_Header{Name: target, Rrtype: dns.TypeA, Class: dns.ClassINET, Ttl: 9999},
+						A:   net.ParseIP(a)})
+				}
+				break
+			}
 			for _, a := range z.A {
 				reply.Answer = append(reply.Answer, &dns.A{Hdr: hdr(dns.TypeA), A: net.ParseIP(a)})
+			}
+		case dns.TypeCNAME:
+			reply.AuthenticatedData = z.ADCNAME
+			if z.CNAME != "" {
+				reply.Answer = append(reply.Answer, &dns.CNAME{Hdr: hdr(dns.TypeCNAME), Target: dns.Fqdn(z.CNAME)})
 			}
 		case dns.TypeMX:
 			for _, mx := range z.MX {
